@@ -511,9 +511,13 @@ def batch(rec, rng, cid, scratch, cfg):
     for r, w in zip(rows, want):
         rec.event("statistics rows compared")
         rec.evaluated(dg=("row", w[0], w[1], prof))
+        e_init = abs(pf.get_fit_params()["E"].value) or 1.0
+        # (a modulus that ends on its lower bound 0 is not reproducible
+        #  between two identical lmfit runs; both must then be ~0)
         same = r[:2] == w[:2] and r[3] == w[3] and (
             r[2] == w[2] or abs(float(r[2]) - float(w[2]))
-            <= 1e-6 * abs(float(w[2])))
+            <= 1e-6 * abs(float(w[2])) or
+            max(abs(float(r[2])), abs(float(w[2]))) <= 1e-3 * e_init)
         rec.check(same, "statistics/row-differs",
                   "row %r, expected %r" % (r, w), case)
     shutil.rmtree(folder)
